@@ -53,6 +53,17 @@ var combos = []combo{
 	{"APT1", "rest"}, {"TRX", "rest"}, {"TON", "rest"}, {"XLM", "rest"},
 }
 
+// inputs per (spec, interface): the REST matcher compiles one regexp per spec API on every call (several ms per
+// parse), so REST streams are shorter; sizes are fixed by the tier
+func streamSize(iface string, quick bool) int {
+	q := map[string]int{"jsonrpc": 5500, "tendermintrpc": 4000, "grpc": 4000, "rest": 2000}
+	th := map[string]int{"jsonrpc": 300000, "tendermintrpc": 200000, "grpc": 150000, "rest": 60000}
+	if quick {
+		return q[iface]
+	}
+	return th[iface]
+}
+
 const hangLimit = 40 * time.Second // one ParseMsg call on a <= 2 MB input; only a watchdog (=> inconclusive unless reproduced alone)
 
 type violationRec struct {
@@ -229,16 +240,13 @@ func witnessInput(in input) map[string]any {
 
 func apiClass(name string) string {
 	parts := strings.Split(name, "&")
-	if len(parts) > 1 {
-		for _, p := range parts {
-			if p == "eth_call" {
-				return "batch-with-eth_call"
-			}
+	for _, p := range parts {
+		if p == "eth_call" {
+			return "contains-eth_call"
 		}
-		return "batch"
 	}
-	if name == "eth_call" {
-		return "eth_call"
+	if len(parts) > 1 {
+		return "batch"
 	}
 	if strings.HasPrefix(name, chainlib.DefaultApiName) {
 		return "default-api"
@@ -466,7 +474,7 @@ func runChild(env []string, logPath string, overall time.Duration) (exit int, ti
 	ctx, cancel := context.WithTimeout(context.Background(), overall)
 	defer cancel()
 	cmd := exec.CommandContext(ctx, os.Args[0], "-test.run", "^TestC38Child$", "-test.count=1", "-test.timeout=0")
-	cmd.Env = append(append(os.Environ(), "VERIF_SEED="+os.Getenv("VERIF_C38_SEED")), env...)
+	cmd.Env = append(append(os.Environ(), "VERIF_SEED="+os.Getenv("VERIF_C38_SEED"), "GOMAXPROCS=2"), env...)
 	lf, err := os.Create(logPath)
 	if err == nil {
 		cmd.Stdout, cmd.Stderr = lf, lf
@@ -495,8 +503,7 @@ func tail(path string, n int) string {
 
 func TestC38(t *testing.T) {
 	run := ev.Start("C38")
-	perCombo := run.Pick(4000, 320000)
-	chunk := run.Pick(2000, 8000)
+	chunk := run.Pick(1000, 10000)
 	dir := filepath.Join(ev.Dir(), ".out", "c38", fmt.Sprintf("%s-%d", run.Tier, run.Seed))
 	os.RemoveAll(dir)
 	if err := os.MkdirAll(dir, 0o755); err != nil {
@@ -504,7 +511,12 @@ func TestC38(t *testing.T) {
 	}
 	os.Setenv("VERIF_C38_SEED", strconv.FormatInt(run.Seed, 10))
 	var jobs []shardJob
+	sizes := map[string]int{}
+	total := 0
 	for _, cb := range combos {
+		perCombo := streamSize(cb.Iface, run.Quick())
+		sizes[cb.Spec+"/"+cb.Iface] = perCombo
+		total += perCombo
 		for s := 0; s < perCombo; s += chunk {
 			n := chunk
 			if s+n > perCombo {
@@ -517,7 +529,8 @@ func TestC38(t *testing.T) {
 	if par > 12 {
 		par = 12
 	}
-	run.Set("inputs_per_spec_interface", perCombo)
+	run.Set("inputs_per_spec_interface", sizes)
+	run.Set("inputs_total", total)
 	run.Set("shard_size", chunk)
 	run.Set("children", len(jobs))
 	overall := time.Duration(run.Pick(600, 1800)) * time.Second
